@@ -20,9 +20,11 @@ def prefix_key(hist):
 
 
 class BNReplayer:
-    def __init__(self, sg, dtype="float32"):
+    def __init__(self, sg, dtype="float32", x_rg=True, no_grad=False):
         self.sg = sg
         self.dtype = np.dtype(dtype)
+        self.x_rg = x_rg            # does the data batch require grad?
+        self.no_grad = no_grad      # forward passes run inside the caller's no_grad block (e.g. recalibrating statistics)
 
     def run(self, hist, expected, consts):
         sg, nn = self.sg, self.sg.nn
@@ -55,9 +57,13 @@ class BNReplayer:
                         bn.running_var.data = np.array([qf(q) for q in call["rv"]], dtype=self.dtype)
                     elif a == "fwd":
                         b = consts["Batches"][call["b"] - 1]
-                        x = sg.Tensor(np.array(b["v"], dtype=self.dtype).reshape(tuple(b["shape"])), requires_grad=True)
+                        x = sg.Tensor(np.array(b["v"], dtype=self.dtype).reshape(tuple(b["shape"])), requires_grad=self.x_rg)
                         snap = x.data.tobytes()
-                        y = bn(x)
+                        if self.no_grad:
+                            with sg.no_grad():
+                                y = bn(x)
+                        else:
+                            y = bn(x)
                         pend.append((x, y))
                         if not bn.training:
                             y2 = bn(x)
